@@ -180,7 +180,7 @@ def width(shape):
 #  ['new', B] ['app', t, dt, rows] ['appc', t, dt, rows] ['ext', t, dt, [rows..]] ['extg', t, dt, [rows..]]
 #  ['exts', t, u] ['view', t, B] ['copy', t] ['sl', t, a, b, c] ['idx', t, [i..]] ['mask', t, [0/1..]]
 #  ['get', t, i] ['set', t, i, rows] ['sets', t, a, b, c, [rows..]] ['iop', t, code, k] ['op', t, code, k]
-#  ['cat', [t..]]
+#  ['cat', [t..]]   ['iopf', t, code, k] `s += float(k)` (a Python float scalar)
 #  ['iops', t, v, code] `s op= seqs[v]`   ['ops', t, v, code] `s op seqs[v]` (code 3 = `<`)   ['un', t, code] -s / abs(s)
 #  (the last three: correspondence + oracle only, no theorem)
 # rows = list of flat integer rows (one array); B = buffer bytes (0 = the default 4 Mb)
@@ -231,7 +231,7 @@ def fmt_op(op, w):
         return f'set:{op[1]}:{op[2]}:{fmt_elem(op[3])}'
     if k == 'sets':
         return f'sets:{op[1]}:{_o(op[2])}:{_o(op[3])}:{_o(op[4])}:{fmt_elems(op[5])}'
-    if k in ('iop', 'op'):
+    if k in ('iop', 'op', 'iopf'):
         return f'{k}:{op[1]}:{op[2]}:{op[3]}'
     if k == 'cat':
         return 'cat:' + ','.join(str(t) for t in op[1]) + f':{w}'
@@ -253,7 +253,7 @@ def fmt_op(op, w):
 
 
 GROW = ('app', 'appc', 'ext', 'extg', 'exts')
-WRITE = ('set', 'sets', 'iop', 'iops')
+WRITE = ('set', 'sets', 'iop', 'iops', 'iopf')
 CREATE = ('new', 'view', 'copy', 'sl', 'idx', 'mask', 'op', 'cat', 'ops', 'un')
 TWO_SEQ = ('exts', 'iops', 'ops')
 TRACT = ('tnew', 'tsl', 'tidx', 'text', 'tset')
@@ -408,14 +408,15 @@ def exec_op(seqs, op, shape, w, tracts=None):
         s = seqs[op[1]]
         dt = DT_CODE.get(s._data.dtype.str, 1)
         s[slice(op[2], op[3], op[4])] = [to_arr(e, dt, shape) for e in op[5]]
-    elif k == 'iop':
+    elif k in ('iop', 'iopf'):
         s = seqs[op[1]]
+        val = float(op[3]) if k == 'iopf' else op[3]
         if op[2] == 0:
-            s += op[3]
+            s += val
         elif op[2] == 1:
-            s *= op[3]
+            s *= val
         else:
-            s -= op[3]
+            s -= val
     elif k == 'op':
         s = seqs[op[1]]
         seqs.append(s + op[3] if op[2] == 0 else s * op[3] if op[2] == 1 else s - op[3])
@@ -450,8 +451,8 @@ def impl(case):
         n0, nt0 = len(seqs), len(tracts)
         try:
             status = exec_op(seqs, op, shape, w, tracts)
-        except (IndexError, ValueError, StopIteration) as e:
-            status = 'ERR:' + type(e).__name__
+        except (IndexError, ValueError, StopIteration, TypeError) as e:
+            status = 'ERR:' + ('TypeError' if isinstance(e, TypeError) else type(e).__name__)
             if op[0] != 'text':              # Tractogram.extend may raise part-way: what was done stays done
                 del seqs[n0:]
                 del tracts[nt0:]
@@ -552,7 +553,7 @@ class RefWorld:
             r.grp = g
         if not added:
             return
-        if r.dt is None:
+        if r.dt is None or len(r.items) == len(added[0]):      # nothing stored before: the data take this dtype
             r.dt = added[2]
 
 
@@ -595,11 +596,18 @@ def oracle(case, out):
         return None
 
 
-def ref_step(W, op, w):
+def ref_step(W, op, w, dts=None):
     """One operation on the reference (plain lists of arrays + links).  Returns (expected status, cells
     written through existing arrays or None, sequence operated on or None, sequences the operation may
-    grow); raises Invalid for an ill-formed operation."""
+    grow); raises Invalid for an ill-formed operation.  `dts`: dtype tag of the arrays of each live sequence
+    as the implementation showed them before the operation (None: the reference's own bookkeeping)."""
     k = op[0]
+
+    def dt_of(i):
+        if dts is not None and i < len(dts) and dts[i] is not None:
+            return dts[i] if dts[i] < len(DT_NAMES) else None
+        return W.live[i].dt
+
     if k in TRACT:
         return ref_tract_step(W, op, w)
     for t in ([op[1]] if k not in ('new', 'cat') else op[1] if k == 'cat' else []) + \
@@ -668,16 +676,19 @@ def ref_step(W, op, w):
             written = {}
             for p, e in zip(pos, op[5]):          # a list: later assignments win
                 written[s.items[p][0]] = [list(r) for r in e]
-    elif k == 'iop':
+    elif k in ('iop', 'iopf'):
         s = W.live[target]
         if not s.items:
             pass                                   # a list of arrays: nothing to do, no error
-        f = ARITH[op[2]]
-        cells = {}
-        for ident, v in s.items:                   # `for a in lst: a op= k` with aliasing
-            cur = cells.get(ident, v)
-            cells[ident] = [[f(x, op[3]) for x in r] for r in cur]
-        written = cells
+        elif k == 'iopf' and dt_of(target) is not None and not inplace_ok(dt_of(target), float(op[3])):
+            expect_status = 'ERR:TypeError'        # `a += 2.0` on an integer array: NumPy refuses, nothing changes
+        else:
+            f = ARITH[op[2]]
+            cells = {}
+            for ident, v in s.items:               # `for a in lst: a op= k` with aliasing
+                cur = cells.get(ident, v)
+                cells[ident] = [[f(x, op[3]) for x in r] for r in cur]
+            written = cells
     elif k == 'op':
         s = W.live[target]
         f = ARITH[op[2]]
@@ -690,6 +701,9 @@ def ref_step(W, op, w):
             expect_status = 'ERR:ValueError'        # _check_shape (zip of unequal lists in list terms)
         elif any(len(a) != len(b) for a, b in zip(s.values(), v.values())):
             raise Invalid()
+        elif k == 'iops' and s.items and dt_of(target) is not None and dt_of(op[2]) is not None and \
+                not inplace_ok(dt_of(target), np.ones(1, dtype=DT_NAMES[dt_of(op[2])])):
+            expect_status = 'ERR:TypeError'        # `a += b` with b of a wider kind: NumPy refuses, nothing changes
         elif k == 'ops':
             W.live.append(Ref(W.new_items([[[f(x, y) for x, y in zip(ra, rb)] for ra, rb in zip(a, b)]
                                            for a, b in zip(s.values(), v.values())]),
@@ -713,7 +727,8 @@ def ref_step(W, op, w):
         if not op[1]:
             raise Invalid()
         vals = [v for t in op[1] for v in W.live[t].values()]
-        W.live.append(Ref(W.new_items(vals), W.fresh_grp(), False, W.live[op[1][0]].dt))
+        W.live.append(Ref(W.new_items(vals), W.fresh_grp(), False,
+                          next((W.live[t].dt for t in op[1] if W.live[t].items), None)))
     else:
         raise Invalid()
 
@@ -821,7 +836,7 @@ def oracle_hist(d, steps):
     for n, (op, (status, obs)) in enumerate(zip(d['ops'], steps)):
         where = f'step {n} {op}'
         before = [[[list(r) for r in v] for v in x.values()] for x in W.live]
-        expect_status, written, target, grown = ref_step(W, op, w)
+        expect_status, written, target, grown = ref_step(W, op, w, [o[1] for o in steps[n - 1][1]] if n else [])
 
         # ---- compare with the implementation
         if status != expect_status:
@@ -960,7 +975,7 @@ def signature(case, what):
         return 'arrayseq:other'
     n = int(m.group(1))
     op = d['ops'][n]
-    if op[0] in ('iop', 'op', 'iops', 'ops', 'un') and 'StopIteration' in what:
+    if op[0] in ('iop', 'iopf', 'op', 'iops', 'ops', 'un') and 'StopIteration' in what:
         return 'arrayseq:arith-on-empty-sequence:StopIteration'
     rule = ('partial-write' if 'reached only' in what else
             'write-not-reaching-linked' if 'did not reach' in what else
@@ -1025,16 +1040,19 @@ class Sim:
     def __init__(self):
         self.lens = []      # per live sequence: list of element row counts
         self.bools = set()  # live sequences holding NumPy bool (comparison results and what derives from them)
+        self.odd = set()    # right operands made with ANOTHER dtype than the history's (and what derives from them)
 
     def clone(self):
         c = Sim()
         c.lens = [list(x) for x in self.lens]
         c.bools = set(self.bools)
+        c.odd = set(self.odd)
         return c
 
     def partners(self, t):
         """live non-bool sequences whose elements have the same row counts as those of t"""
-        return [u for u in range(len(self.lens)) if self.lens[u] == self.lens[t] and u not in self.bools]
+        return [u for u in range(len(self.lens)) if self.lens[u] == self.lens[t] and u not in self.bools
+                and u not in self.odd]
 
     def apply(self, op):
         k = op[0]
@@ -1044,6 +1062,10 @@ class Sim:
         if len(L) > n0 and ((k == 'ops' and op[3] == 3) or
                             (k in ('view', 'copy', 'sl', 'idx', 'mask') and op[1] in self.bools)):
             self.bools.add(n0)
+        if len(L) > n0 and k in ('view', 'copy', 'sl', 'idx', 'mask', 'op', 'un') and op[1] in self.odd:
+            self.odd.add(n0)
+        if len(L) > n0 and k == 'cat' and op[1] and op[1][0] in self.odd:
+            self.odd.add(n0)
 
     def _apply(self, op):
         k = op[0]
@@ -1141,6 +1163,7 @@ def alphabet(sim, fr, dt, level):
                 ops.append(lambda t=t, m=m: ['sets', t, None, None, 2,
                                              [fr.rows(x) for x in L[t][::2]]])
                 ops.append(lambda t=t: ['iop', t, 1, 2])
+                ops.append(lambda t=t: ['iopf', t, 0, 2])      # a Python float: refused on integer data
                 # operators with an ArraySequence operand of matching element lengths (another live
                 # sequence when there is one, else the sequence itself) and a unary operator
                 others = [u for u in sim.partners(t) if u != t]
@@ -1233,7 +1256,7 @@ def random_history(rng, nsteps):
             else:
                 add(['view', t, buf()])
             continue
-        if rng.random() < 0.12 and m and not mixed:
+        if rng.random() < 0.12 and m and not mixed and t not in sim.odd:
             # operators with an ArraySequence operand / unary operators
             kind = rng.choice(['iops', 'iops', 'ops', 'ops', 'ops', 'un', 'bad'])
             if kind == 'un':
@@ -1251,8 +1274,13 @@ def random_history(rng, nsteps):
             if seqadds >= (3 if dt0 == 3 else 8):
                 continue
             if rng.random() < 0.35 and n < 6 and sum(L[t]) < 40:     # a fresh right operand
+                dtx = dt0
+                if kind == 'iops' and rng.random() < 0.5:            # … of another dtype: NumPy may refuse
+                    dtx = rng.choice([d for d in (0, 1, 2, 4) if d != dt0])
                 add(['new', buf()])
-                add(['ext', n, dt0, [fr.rows(x) for x in L[t]]])
+                add(['ext', n, dtx, [fr.rows(x) for x in L[t]]])
+                if dtx != dt0:
+                    sim.odd.add(n)
                 u = n
             else:
                 u = rng.choice(sim.partners(t))
@@ -1312,7 +1340,7 @@ def random_history(rng, nsteps):
                 else:
                     muls += 1
             k = rng.choice([2, 3, -1]) if code == 1 else rng.choice([1, 7, 10, -3])
-            add(['iop', t, code, k])
+            add(['iopf' if rng.random() < 0.25 else 'iop', t, code, k])
         elif r < 0.96 and can_create:
             if not m:
                 continue
